@@ -96,6 +96,26 @@ def cases(draw):
                        ["new_cells", list(s.path), user]):
                 ops.append(op)
                 gen.apply_ref(G, op)
+    # a keyword argument whose name is also a reference; a nested scope that does not mention a global name,
+    # followed by a list comprehension that does (comprehensions are inlined from Python 3.12 on)
+    shape = draw(st.integers(0, 5))
+    if shape <= 1 and G.all_spaces():
+        s = draw(st.sampled_from(G.all_spaces()))
+        if all(G.find_cells(s, n) is None and n not in s.children for n in ("c7", "c8", "kw0")) and "kw0" not in G.refs:
+            callee = {"name": "c7", "params": [["x", None], ["kw0", 1]],
+                      "expr": ["bin", "+", ["bin", "*", ["var", "x"], ["lit", 10]], ["var", "kw0"]],
+                      "cached": draw(st.booleans()), "allow_none": None, "form": "def", "tick": False}
+            if shape == 0:
+                body = ["kwcall", ["name", "c7"], [["x", ["var", "x"]], ["kw0", ["name", "kw0"]]]]
+            else:
+                body = ["bin", "+", ["lam", "z", ["bin", "+", ["var", "z"], ["lit", 1]], ["lit", 2]],
+                        ["lst", "i", 2, ["bin", "+", ["call", ["name", "c7"], [["var", "i"]], "()"], ["name", "kw0"]]]]
+            user = {"name": "c8", "params": [["x", None]], "expr": body, "cached": draw(st.booleans()),
+                    "allow_none": None, "form": draw(st.sampled_from(["lambda", "def"])), "tick": False}
+            for op in (["set_ref", [], "kw0", ["v", draw(st.integers(3, 9))], None],
+                       ["new_cells", list(s.path), callee], ["new_cells", list(s.path), user]):
+                ops.append(op)
+                gen.apply_ref(G, op)
     # pickled (non-literal) references
     for j, s in enumerate(G.all_spaces()[:2]):
         if draw(st.booleans()):
@@ -140,7 +160,8 @@ def features(case):
         f.add("itemspace")
     if '"add_bases"' in src:
         f.add("inheritance")
-    if '"name": "max"' in src or '"name": "min"' in src or '"name": "c6"' in src or '"name": "c5"' in src:
+    if '"name": "max"' in src or '"name": "min"' in src or '"name": "c6"' in src or '"name": "c5"' in src \
+            or '"name": "c8"' in src:
         f.add("shadow")
     if '"lam"' in src or '"sum"' in src or '"lst"' in src:
         f.add("nested-scope")
